@@ -145,6 +145,8 @@ func genSched(tier string, emit func(string)) {
 		"o:0.7.0 h:0.7.0 o:1.7.0 h:1.7.0 c:0.7.0",
 		// … while the old connection's heartbeat refreshes its records
 		"o:0.7.0 h:0.7.0 o:1.7.0 h:1.7.0 b:0.7.0",
+		// … while the heartbeat-timeout sweep of node 0 closes the old connection
+		"o:0.7.0 h:0.7.0 o:1.7.0 h:1.7.0 s:0.7.0",
 		// two nodes register the same client at once (no check-then-act involved: last writer wins, both records exist)
 		"o:0.7.0 o:1.7.0 o:0.9.0 h:0.9.0 h:1.7.0 c:0.9.0",
 	}
